@@ -195,7 +195,9 @@ class Gen:
                 return ("sctx", e)
         return ("z", k, r.choice(["curly", "square"]))
 
-    def atom_name(self, pool):
+    def atom_name(self, pool, flat=0):
+        if flat and "shifted-shock" in self.feats:
+            pool = [p for p in pool if p[1] != "TS"] or [(lit("zz_undeclared"), "P")]
         pieces, kind = self.r.choice(pool)
         sh = self.shift()
         if kind in ("TS",) and "shifted-shock" in self.feats:
@@ -219,7 +221,7 @@ class Gen:
         r = self.r
         q = r.random()
         if q < 0.45 or depth <= 0 and q < 0.7:
-            return self.atom_name(pool)
+            return self.atom_name(pool, flat)
         if q < 0.6 or depth <= 0:
             if r.random() < 0.15 and self.ctx:
                 e, v = self.iexpr()
@@ -227,7 +229,7 @@ class Gen:
                     return ("ctx", e, r.random() < 0.3)
             return self.num()
         if flat == 2:
-            return self.atom_name(pool)
+            return self.atom_name(pool, flat)
         if q < 0.70:
             inner = self.sum(pool, depth - 1, 2 if flat else 0, subs)
             return ("paren", inner)
@@ -235,7 +237,7 @@ class Gen:
             f = r.choice(FUNCS1)
             return ("call", f, [self.sum(pool, depth - 1, 2 if flat else 0, subs)])
         if flat:
-            return self.atom_name(pool)
+            return self.atom_name(pool, flat)
         if q < 0.87:
             f = r.choice(FUNCS2)
             return ("call", f, [self.sum(pool, depth - 1, 0, subs), self.sum(pool, depth - 1, 0, subs)])
@@ -245,6 +247,8 @@ class Gen:
         # pseudofunction call
         f = r.choice(PSEUDO_NAMES)
         arg = self.sum(pool, min(depth - 1, 2), 1, None)
+        if not self.has_name(arg):
+            arg = self.atom_name(pool, 1)
         if r.random() < 0.35:
             k = None
         elif f.startswith("mov"):
@@ -253,9 +257,41 @@ class Gen:
             k = r.choice([-1, -1, -2, -3, -4, 1, 2])
         return ("pseudo", f, arg, k)
 
+    def has_name(self, e):
+        k = e[0]
+        if k == "name":
+            return True
+        if k == "subs":
+            return self.has_name(getattr(self, "subs_body", {}).get(e[1], ("num", 1, 0)))
+        if k == "bin":
+            return self.has_name(e[3]) or self.has_name(e[4])
+        if k in ("neg", "paren"):
+            return self.has_name(e[1])
+        if k == "call":
+            return any(self.has_name(a) for a in e[2])
+        if k == "pseudo":
+            return self.has_name(e[2])
+        return False
+
+    def safe_const(self, e):
+        """a divisor / base of a power is a positive literal or depends on data (Python scalars raise
+        ZeroDivisionError or turn complex where arrays give inf / nan)"""
+        return self.has_name(e) or (e[0] == "num" and e[1] > 0) or (e[0] == "ctx" and ieval(e[1], self.ctx) > 0)
+
+    def is_zero(self, e):
+        if e[0] == "num":
+            return e[1] == 0
+        if e[0] == "ctx":
+            return ieval(e[1], self.ctx) == 0
+        if e[0] in ("neg", "paren"):
+            return self.is_zero(e[1])
+        return False
+
     def power(self, pool, depth, flat, subs):
         r = self.r
         a = self.atom(pool, depth, flat, subs)
+        if not self.safe_const(a):
+            a = ("num", 2, 0)
         if r.random() < 0.12:
             q = r.random()
             if q < 0.6:
@@ -279,7 +315,11 @@ class Gen:
         e = self.factor(pool, depth, flat, subs)
         n = r.choice([0, 0, 0, 1, 1, 2]) if depth > 0 else r.choice([0, 0, 1])
         for _ in range(n):
-            e = ("bin", r.choice(["Mul", "Mul", "Div"]), "caret", e, self.factor(pool, depth, flat, subs))
+            op = r.choice(["Mul", "Mul", "Div"])
+            f = self.factor(pool, depth, flat, subs)
+            if op == "Div" and not self.safe_const(f):
+                f = ("num", 4, 0)
+            e = ("bin", op, "caret", e, f)
         return e
 
     def sum(self, pool, depth, flat, subs):
@@ -541,7 +581,8 @@ class ModelGen(Gen):
         if q < 0.7:
             cd, _ = self.cond(loopvars=loopvars)
             th = [("item", ("tail", r.random() < 0.7, self.term(pool, 1, 0, subs)))]
-            el = [("item", ("tail", r.random() < 0.7, self.term(pool, 1, 0, subs)))] if r.random() < 0.5 else None
+            el = [("item", ("tail", r.random() < 0.7, self.term(pool, 1, 0, subs)))] \
+                if (r.random() < 0.5 and "if-else" not in self.feats) else None
             return ("if", cd, th, el)
         return ("item", ("tail", r.random() < 0.7, self.term(pool, 1, 0, subs)))
 
@@ -611,6 +652,7 @@ class ModelGen(Gen):
             closed = body[0] in ("name", "num", "paren", "call") or (body[0] == "pseudo" and not (
                 body[1] == "shift" and "shift-bare" in self.feats))
             subs.append((nm, closed))
+            self.subs_body = dict(getattr(self, "subs_body", {}), **{nm: body})
             subs_nodes.append(("item", ("subs", nm, r.random() < 0.6, body)))
 
         # equations
@@ -701,8 +743,9 @@ OPTXT = {"Add": "+", "Sub": "-", "Mul": "*", "Div": "/"}
 
 
 class Render:
-    def __init__(self, rng, restyle=True, noisy=True):
+    def __init__(self, rng, restyle=True, noisy=True, feats=()):
         self.r = rng
+        self.feats = feats
         self.restyle = restyle       # re-draw the style fields (brackets, ^/**, =/:=, spellings, <>/{{}})
         self.noisy = noisy           # comments, continuations, odd white space
 
@@ -804,7 +847,7 @@ class Render:
         if force_square:       # name{k} right after ?(c) is not standardised by the preparser (not alarmed: see report)
             b = "square"
         if k == 0:
-            if r.random() < 0.93:
+            if r.random() < 0.93 or "shifted-shock" in self.feats:
                 return ""
             txt = r.choice(["0", "+0", "-0"])
         else:
@@ -1343,7 +1386,7 @@ def correspondence(ctx) -> CorrResult:
         model = gen_case(rng, feats)
         model_stats(model, dist)
         for j in range(n_render):
-            jobs.append((model, Render(random.Random(rng.getrandbits(64))).source(model)))
+            jobs.append((model, Render(random.Random(rng.getrandbits(64)), feats=feats).source(model)))
     import time
     t0 = time.time()
     observed = run_impl_many(jobs)
@@ -1519,13 +1562,16 @@ def ref_residual(side, env, ctx, subs):
 
 
 def _same(a, b, tol=1e-8):
-    a = np.asarray(a, dtype=float); b = np.asarray(b, dtype=float)
+    """equal up to rounding; values that are not finite reals (nan, inf, complex powers of negative constants) match
+    each other"""
+    a = np.asarray(a, dtype=complex); b = np.asarray(b, dtype=complex)
     if a.shape != b.shape:
         a, b = np.broadcast_arrays(a, b)
     with np.errstate(all="ignore"):
-        both_bad = ~np.isfinite(a) & ~np.isfinite(b)
+        bad_a = ~np.isfinite(a.real) | ~np.isfinite(a.imag) | (a.imag != 0)
+        bad_b = ~np.isfinite(b.real) | ~np.isfinite(b.imag) | (b.imag != 0)
         ok = np.abs(a - b) <= tol * (1 + np.abs(a) + np.abs(b))
-    return bool(np.all(ok | both_bad))
+    return bool(np.all(np.where(bad_a | bad_b, bad_a & bad_b, ok)))
 
 
 def check_model(model, src, rng_seed, key_prefix="") -> list:
@@ -1604,7 +1650,7 @@ def check_model(model, src, rng_seed, key_prefix="") -> list:
             except KeyError as e:
                 fails.append(Failure(key_prefix + "quantities:missing", f"name {e} of the source is not a quantity of the model", inp))
                 break
-            gotv = np.asarray(vals[i], dtype=float)
+            gotv = np.asarray(vals[i])
             if not _same(gotv, want):
                 eq = (dyn_eqs if which == "dynamic" else m.get_steady_equation_objects())[i]
                 fails.append(Failure(key_prefix + f"eval:{which}", f"{which} equation {i} ({eq.human}) does not evaluate to rhs - lhs as written",
@@ -1662,16 +1708,16 @@ def probe_models():
 
 def _falsify_worker(job):
     import random
-    i, model, seeds = job
+    i, model, seeds, feats = job
     cnt = {"models": 1, "renderings": 1, "equation_evaluations": 0, "variant_pairs": 0}
-    srcs = [Render(random.Random(s)).source(model) for s in seeds]
+    srcs = [Render(random.Random(s), feats=feats).source(model) for s in seeds]
     fs = check_model(model, srcs[0], seeds[0])
     cnt["equation_evaluations"] = 2 * len(reference_model(model)["equations"])
     if not fs:
         sig0 = observed_signature(model, srcs[0])
         variants = [("rendering", srcs[1])]
         if i % 2 == 0:
-            variants.append(("unrolled", Render(random.Random(seeds[1])).source(unroll(model))))
+            variants.append(("unrolled", Render(random.Random(seeds[1]), feats=feats).source(unroll(model))))
         for what, s2 in variants:
             cnt["variant_pairs"] += 1
             if observed_signature(model, s2) != sig0:
@@ -1708,7 +1754,7 @@ def falsify(ctx, hints):
     jobs = []
     for i in range(n):
         model = gen_case(rng, feats)
-        jobs.append((i, model, [rng.getrandbits(64) for _ in range(2)]))
+        jobs.append((i, model, [rng.getrandbits(64) for _ in range(2)], feats))
     import multiprocessing as mp
     import irispie  # noqa: imported before the fork
     with mp.get_context("fork").Pool(min(core.NCPU, 16)) as pool:
